@@ -457,6 +457,12 @@ def run(model: RepoModel, rep, tier: str):
                         "positional parameters and the tail slice of the remaining positional arguments continue exactly where the first loop stopped, "
                         "so an argument is bound to the wrong parameter position", 2)
     check_index_partitions(model, rep, "C11.R7", ["core/stmt_states.py"])
+    from .. import generic4
+    rep.rule("C11.R8", "a rule restricted to a line matches only the statement on that line: every comparison with rule.line_num is against the "
+                       "0-based row + 1, the offset stored in SFGNode.line_no included", 6)
+    generic4.check_rule_line_offsets(model, rep, "C11.R8")
+    rep.rule("C11.R9", "adding a rule never removes a flow: the matching rules are never collapsed to one per name (or per any single attribute)", 0)
+    generic4.check_no_keyed_collapse(model, rep, "C11.R9", [r for r in ("taint/taint_analysis.py", "taint/rule_manager.py") if r in model.modules])
 
 
 # ---------------------------------------------------------------- self-test mutants
